@@ -12,12 +12,18 @@ TRUSTED_BASE = [
     "Coq 8.16.1 kernel; no axioms (Print Assumptions: closed); no native_compute",
     "extraction (ExtrOcamlBasic only) + ocaml/driver.ml (parsing/printing); Rust harness avrodrive",
     "spec/FileSpec.v transcribes the container layout of the Avro specification; its extracted parser judges the crate's files",
-    "second implementation: apache-avro 0.17 (harness commands apache_read / apache_write); Python zlib/bz2/lzma decode deflate/bzip2/xz block data independently"
+    "second implementation: apache-avro 0.17 (harness commands apache_read / apache_write); Python zlib/bz2/lzma decode deflate/bzip2/xz block data independently (one complete stream per block, nothing behind it); snappy / zstandard block data are decoded by the snap / zstd crates' own decoders (harness command blockdec, not the crate's reader) and the snappy trailer is compared with Python's zlib.crc32",
+    "hook H3 (hooks/H3.diff, harness command cwh): the starting length of the encode loops' output buffer is set by the run; the crate's value 32768 is one of the values used",
+    "OCaml driver command cwraw: Container.v's writer model (parametric in the block compressor) instantiated with the identity and the codec's name; lib/cont.py raw_view rebuilds the same view of the crate's file from the reference parser's blocks and the independent decoders' payloads",
 ]
 ASSUMPTIONS = [
     "compression libraries, crc32fast are abstract: the crate's code around them is modelled and proved under contracts (CodecLoop.v, DecodeLoop.v: see C05/C17, hooks H3/H4); framing and interoperability of compressed blocks are checked on the crate (reference parser + independent decoders + apache-avro), not proved",
     "apache-avro limitations excluded from the comparison: zero-byte datums in compressed blocks, map entry order, leading-dot / empty-namespace spellings"
 ]
+
+def clip(line, n=1200000):
+    """the whole harness line (it reproduces the case); only absurdly long ones are cut"""
+    return line if len(line) <= n else line[:n]
 
 def decompress(family, data):
     if family == "null":
@@ -85,53 +91,103 @@ def run(ctx):
         c = cont.CODECS[i % len(cont.CODECS)]
         meta = [(G.rand_str(rng, 6) or "k", G.rand_bytes(rng)) for _ in range(rng.choice([0, 0, 1, 3]))]
         meta = list({k: v for k, v in meta if not k.startswith("avro.")}.items())
-        hs.append((h, ops, expected, c, rng.choice([0, 3, 64, 65536]), meta))
+        # hook H3: with a small starting length even these small blocks take the deflate / bzip2 / xz loops through several growth steps
+        start = rng.choice([None, 1, 2, 64]) if cont.codec_family(c) in cont.LOOP_FAMILIES else None
+        hs.append((h, ops, expected, c, rng.choice([0, 3, 64, 65536]), meta, start))
+    # blocks whose compressed form outgrows the encode loops' output buffer (several times): every codec setting x starting length
+    bigs = []
+    for (c, start, shape, content, far) in cont.big_plan(rng, ctx["tier"]):
+        bigs.append((cont.BigHistory(rng, start, shape, content=content, want_far=far), c, start))
+    cont.prepare_all([h for h, _, _ in bigs])
+    for h, c, start in bigs:
+        ops, expected = cont.make_ops(rng, h, allow_fail=rng.random() < 0.3, end="into_inner")
+        meta = [("big", b"\x01")] if rng.random() < 0.3 else []
+        hs.append((h, ops, expected, c, cont.big_block_size(rng, h), meta, start))
     jsons = [C.unhex(C.parse_sx(r)[0][2]) for r in C.run_parallel(C.AVRODRIVE, ["freeze " + h.schema for h, *_ in hs])]
-    wl = [cont.cw_line(h, c, b, "vec", meta, ops) for (h, ops, ex, c, b, meta) in hs]
+    wl = [cont.with_start(start, cont.cw_line(h, c, b, "vec", meta, ops)) for (h, ops, ex, c, b, meta, start) in hs]
     wr = C.run_parallel(C.AVRODRIVE, wl)
-    files = []
-    for (h, ops, expected, c, b, meta), line, res in zip(hs, wl, wr):
+    # Container.v's writer (block compressor = identity, the codec's name in the header): the file before block compression
+    ml = [cont.raw_model_line(cont.cw_line(h, c, b, "vec", meta, ops, with_json=j)) for (h, ops, ex, c, b, meta, start), j in zip(hs, jsons)]
+    mr = cont.run_model(ml)
+    files, builts = [], []
+    for (h, ops, expected, c, b, meta, start), line, res in zip(hs, wl, wr):
         p = cont.parse_cw(res)
-        files.append(None if p is None or p.get("build_err") else p["sink"])
+        bad = p is None or p.get("build_err") or any(r != "ok" for (k, *_), (r, l) in zip(ops, p["ops"]) if k != "fail")
+        files.append(None if bad else p["sink"])
+        builts.append(None if bad else p["built"])
         if files[-1] is None:
-            violations.append({"impl_case": line[:3000], "what": "writing failed", "impl": res[:300]})
+            violations.append({"impl_case": clip(line), "what": "writing failed", "impl": res[:300]})
     # (1) layout: the extracted reference parser
     idx = [i for i, f in enumerate(files) if f is not None]
-    parsed = C.run_parallel(C.AVROMODEL, ["fileparse " + C.hx(files[i]) for i in idx])
+    parsed = cont.run_model(["fileparse " + C.hx(files[i]) for i in idx])
     apache = C.run_parallel(C.AVRODRIVE, ["apache_read " + C.hx(files[i]) for i in idx])
     from collections import Counter
     dist = Counter()
+    dec = cont.BlockDecoder()
+    for i, rp in zip(idx, parsed):
+        fp = cont.parse_fileparse(rp)
+        for cnt, d in (fp["blocks"] if fp else []):
+            dec.want(cont.codec_family(hs[i][3]), d)
+    dec.flush()
     for i, rp, ra in zip(idx, parsed, apache):
-        h, ops, expected, c, b, meta = hs[i]
+        h, ops, expected, c, b, meta, start = hs[i]
         fam = cont.codec_family(c)
         p = C.parse_sx(rp)[0]
-        line = wl[i]
+        line = clip(wl[i])
         canon = [C.unhex(h.spec[j]["canon"]) for j in expected]
         distinct.add((h.schema, c, b, len(canon), len(meta)))
         if p[0] != "ok":
-            violations.append({"impl_case": line[:3000], "what": "the file is not in the container grammar (reference parser)"})
+            violations.append({"impl_case": line, "what": "the file is not in the container grammar (reference parser)"})
             continue
         md = {C.unhex(kv[0]): C.unhex(kv[1]) for kv in p[1][1:]}
         want_md = {b"avro.schema": jsons[i], b"avro.codec": fam.encode()}
         want_md.update({k.encode(): v for k, v in meta})
         if md != want_md or len(p[1][1:]) != len(want_md):
-            violations.append({"impl_case": line[:3000], "what": "header metadata differs: %r" % sorted(md.keys())})
+            violations.append({"impl_case": line, "what": "header metadata differs: %r" % sorted(md.keys())})
         if C.unhex(p[2]) != cont.SYNC:
-            violations.append({"impl_case": line[:3000], "what": "sync marker differs"})
+            violations.append({"impl_case": line, "what": "sync marker differs"})
         blocks = [(int(bk[1]), C.unhex(bk[2])) for bk in p[3:]]
         if any(cnt <= 0 for cnt, _ in blocks) or sum(cnt for cnt, _ in blocks) != len(canon):
-            violations.append({"impl_case": line[:3000], "what": "block counts %r do not add up to %d" % ([c_ for c_, _ in blocks], len(canon))})
-        try:
-            datas = [decompress(fam, d if fam != "snappy" else d) for _, d in blocks]
-        except Exception as e:
-            violations.append({"impl_case": line[:3000], "what": "block data is not a %s stream: %s" % (fam, e)})
-            datas = [None]
+            violations.append({"impl_case": line, "what": "block counts %r do not add up to %d" % ([c_ for c_, _ in blocks], len(canon))})
+        # block data through a decoder that is not the crate's (all six codecs): exactly one complete stream per block, whose
+        # payload is the encodings of the block's values -- block by block, not only in total
+        datas = []
+        pos = 0
+        for bi, (cnt, d) in enumerate(blocks):
+            pl, why = dec.get(fam, d)
+            datas.append(pl)
+            if pl is None:
+                violations.append({"impl_case": line, "what": "data of block %d (%d bytes, %d objects) is not a %s stream an independent decoder accepts: %s" % (bi, len(d), cnt, fam, why)})
+                continue
+            want = b"".join(canon[pos:pos + max(cnt, 0)])
+            if pl != want:
+                violations.append({"impl_case": line, "what": "block %d announces %d objects, its data (%d bytes of %s) decodes to %d bytes; the encodings of these values are %d bytes%s" % (
+                    bi, cnt, len(d), fam, len(pl), len(want),
+                    " (the decoded data is longer and starts differently)" if len(pl) > len(want) and not pl.startswith(want) else
+                    " (the values' encodings followed by other bytes)" if len(pl) > len(want) else "")})
+            pos += max(cnt, 0)
         if all(d is not None for d in datas):
-            if b"".join(datas) != b"".join(canon):
-                violations.append({"impl_case": line[:3000], "what": "decoded block data differs from the values' encodings"})
+            if b"".join(datas) != b"".join(canon) and pos == len(canon) and not any(v["impl_case"] is line and v["what"].startswith("block ") for v in violations[-len(blocks):]):
+                violations.append({"impl_case": line, "what": "decoded block data differs from the values' encodings"})
             dist["layout+data/" + fam] += 1
+            # model: the crate's file with every block's data replaced by its payload = the file of Container.v's writer
+            pm = cont.parse_cw(mr[i]) if mr[i] != "(unmodelled)" else None
+            if pm is not None and not pm.get("build_err"):
+                rv = cont.raw_view(files[i][:builts[i]], cont.SYNC, list(zip([cnt for cnt, _ in blocks], datas)))
+                if rv != pm["sink"]:
+                    diffs.append({"impl_case": line, "model_case": clip(ml[i]), "what": "the file with its blocks decompressed (%d bytes, blocks %r) is not the file of the writer model (%d bytes)" % (
+                        len(rv), [cnt for cnt, _ in blocks], len(pm["sink"]))})
+                dist["model-file/" + fam] += 1
+            elif mr[i] != "(unmodelled)":
+                diffs.append({"impl_case": line, "model_case": clip(ml[i]), "what": "the writer model did not run", "model": mr[i][:300]})
         else:
-            dist["layout-only/" + fam] += 1
+            dist["undecodable/" + fam] += 1
+        if start is not None or isinstance(h, cont.BigHistory):
+            st = start or 32768
+            g = max([cont.growth_steps(st, len(d)) for _, d in blocks] + [0]) if fam in cont.LOOP_FAMILIES else 0
+            dist["buffer-growth-steps/%s/%s" % (fam, "0" if g == 0 else "1-2" if g <= 2 else "3-6" if g <= 6 else "7+")] += 1
+            if isinstance(h, cont.BigHistory):
+                dist["big/%s/%s" % (h.shape, h.content)] += 1
         # second implementation
         pa = C.parse_sx(ra)[0]
         has_map = any(nd.t == "map" for nd in h.nodes)
@@ -144,17 +200,17 @@ def run(ctx):
             dist["apache-read-skipped/zero-byte-datums"] += 1      # apache-avro 0.17 cannot read blocks of zero-byte datums
         elif pa[0] != "ok":
             msg = C.unhex(pa[1]).decode("utf-8", "replace") if len(pa) > 1 else ""
-            violations.append({"impl_case": line[:3000], "what": "apache-avro cannot read the file: %s" % msg[:200]})
+            violations.append({"impl_case": line, "what": "apache-avro cannot read the file: %s" % msg[:200]})
         else:
             got = [C.unhex(x) for x in pa[2:]]
             if got != canon and not has_map:      # apache-avro re-encodes maps in hash order
-                violations.append({"impl_case": line[:3000], "what": "apache-avro reads different values"})
+                violations.append({"impl_case": line, "what": "apache-avro reads different values"})
             dist["apache-read/" + fam] += 1
         if len(samples) < 4:
             samples.append({"direction": "crate writes", "codec": c, "blocks": [c_ for c_, _ in blocks], "metadata_keys": sorted(k.decode("utf-8", "replace") for k in md)})
     # (2) files from an independent conforming writer, read by the crate
     rl, rmeta = [], []
-    for i, (h, ops, expected, c, b, meta) in enumerate(hs):
+    for i, (h, ops, expected, c, b, meta, start) in enumerate(hs):
         canon = [C.unhex(h.spec[j]["canon"]) for j in expected]
         exp = [h.spec[j]["dany"] for j in expected]
         fam = rng.choice(["null", "null", "deflate", "bzip2", "xz"])
@@ -166,7 +222,7 @@ def run(ctx):
         rmeta.append((i, "reference-writer/%s%s" % (fam, "/codec-absent" if omit else ""), exp, [(k.encode(), v) for k, v in meta] + extra))
     # (3) files written by apache-avro
     al, ameta = [], []
-    for i, (h, ops, expected, c, b, meta) in enumerate(hs):
+    for i, (h, ops, expected, c, b, meta, start) in enumerate(hs):
         canon = [h.spec[j]["canon"] for j in expected]
         fam = cont.codec_family(c)
         if any(nd.t == "map" for nd in h.nodes):
@@ -177,7 +233,7 @@ def run(ctx):
     ar = C.run_parallel(C.AVRODRIVE, al)
     for i, res in zip(ameta, ar):
         p = C.parse_sx(res)[0]
-        h, ops, expected, c, b, meta = hs[i]
+        h, ops, expected, c, b, meta, start = hs[i]
         if p[0] != "ok":
             dist["apache-write-skipped"] += 1
             continue
@@ -189,19 +245,26 @@ def run(ctx):
         pr = cont.parse_cr(res)
         dist[origin] += 1
         if pr.get("open_err") or "items" not in pr:
-            violations.append({"impl_case": line[:3000], "what": "a conforming file (%s) was rejected" % origin, "impl": res[:300]})
+            violations.append({"impl_case": line, "what": "a conforming file (%s) was rejected" % origin, "impl": res[:300]})
             continue
         ok, k, why = cont.values_prefix_then_eof(pr["items"], exp, True)
         if not ok:
-            violations.append({"impl_case": line[:3000], "what": "a conforming file (%s) was read incorrectly: %s" % (origin, why)})
+            violations.append({"impl_case": line, "what": "a conforming file (%s) was read incorrectly: %s" % (origin, why)})
         if want_meta is not None and sorted(pr["meta"]) != sorted(want_meta):
-            violations.append({"impl_case": line[:3000], "what": "user metadata of a conforming file (%s) was not returned as written" % origin})
+            violations.append({"impl_case": line, "what": "user metadata of a conforming file (%s) was not returned as written" % origin})
         if len(samples) < 8:
             samples.append({"direction": origin, "values": len(exp)})
-    return {"evaluations": len(wl) + len(rl) + len(al) + 2 * len(idx), "distinct_nontrivial": len(distinct),
-            "rule": "(1) files written by the crate (12 codec settings, user metadata, block sizes) parsed by the extracted reference parser "
-                    "(FileSpec.ref_parse): metadata = {avro.schema, avro.codec, user entries}, one sync marker, positive counts adding up, block "
-                    "data (decoded with Python's zlib/bz2/lzma for deflate/bzip2/xz) = the values' encodings; and read by apache-avro 0.17; "
+    violations.sort(key=lambda v: len(v.get("impl_case", "")))      # the smallest reproducing inputs first
+    return {"evaluations": len(wl) + len(ml) + len(rl) + len(al) + 2 * len(idx), "distinct_nontrivial": len(distinct),
+            "rule": "(1) files written by the crate (12 codec settings, user metadata, block sizes; random schemas with small values, and a directed "
+                    "enumeration codec setting x starting length of the encode loops' output buffer {1,2,64,1024,4096,32768} (hook H3) x value shapes {bytes, "
+                    "string, fixed, record{long,bytes}, array of doubles, many medium records per block} with incompressible / text / constant contents of "
+                    "START-1..40*START and 33000..200000 bytes, so that the compressed block outgrows the buffer up to 7+ times: distribution buffer-growth-steps) "
+                    "parsed by the extracted reference parser "
+                    "(FileSpec.ref_parse): metadata = {avro.schema, avro.codec, user entries}, one sync marker, positive counts adding up, every block's "
+                    "data = exactly one complete stream for an independent decoder (Python's zlib/bz2/lzma for deflate/bzip2/xz, the snap / zstd crates' own decoders "
+                    "and zlib.crc32 for snappy/zstandard) whose payload = the encodings (specification encoder) of the values the block announces; the file with "
+                    "its blocks decompressed = the file of Container.v's writer model run with the identity as block compressor (model difference); and read by apache-avro 0.17; "
                     "(2) files from an independent writer (any block partition, shuffled metadata in any map layout incl. negative counts, extra "
                     "keys, avro.codec absent, deflate/bzip2/xz at several levels/checks) and (3) files written by apache-avro (six codecs) read by the crate",
             "samples": samples, "violations": violations, "model_diffs": diffs,
